@@ -8,6 +8,7 @@ CONSTANTS
   Groups = {1}
   Msgs = {1}
   Outcomes <- MCOutcomes
+  OpKinds <- AllKinds
   MaxH = 4
   MaxI = 4
   MaxOps = 5
